@@ -1035,6 +1035,19 @@ func reduceCase(r *rng, idx int) {
 		stat("reduce_distance_restarts", 1)
 	}
 	msgs := genActivity(r, o)
+	if r.chance(1, 4) { // the message list ends in records (after lap / session / activity): one without position or distance, one ordinary
+		var lastTs uint32 = o.t0 + 100000
+		for k := 0; k < 1+r.intn(2); k++ {
+			m := proto.Message{Num: mesgnum.Record}
+			m.Fields = append(m.Fields, fld(mesgnum.Record, fieldnum.RecordTimestamp, proto.Uint32(lastTs+uint32(k))))
+			if r.chance(1, 3) {
+				m.Fields = append(m.Fields, fld(mesgnum.Record, fieldnum.RecordDistance, proto.Uint32(uint32(1000000+r.intn(1000)))))
+			}
+			m.Fields = append(m.Fields, fld(mesgnum.Record, fieldnum.RecordHeartRate, proto.Uint8(uint8(60+r.intn(100)))))
+			msgs = append(msgs, m)
+		}
+		stat("reduce_lists_ending_in_records", 1)
+	}
 	in := snapAll(msgs)
 	fit := &proto.FIT{Messages: msgs}
 	method := r.intn(3)
